@@ -501,7 +501,45 @@ fn judge_forward(st: &mut Stats, acc: &mut Acc, f: Fid, z: &Cmplx, zc: CDD) -> O
 fn judge_inverse(st: &mut Stats, acc: &mut Acc, f: Fid, z: &Cmplx, zc: CDD, selfcheck: bool) {
     if f.pole_at(z) { st.count("skipped:exact-pole"); return; }
     let models: Vec<InvModel> = sides(f, z, zc).into_iter().map(|zs| inv_model(f, zs)).collect();
-    if models.iter().any(|mdl| !(K_INV * U * mdl.e <= ENV_CAP) || !cfinite(mdl.r)) { acc.capped[f.idx()] += 1; return; }
+    if models.iter().any(|mdl| !(K_INV * U * mdl.e <= ENV_CAP) || !cfinite(mdl.r)) {
+        acc.capped[f.idx()] += 1;
+        // The accuracy envelope is not usable here (exactly at / extremely close to a branch point or pole), but the
+        // value exists: the function must still return a finite number on the right branch. Judged coarsely:
+        // within 5% of (1+|reference|) of one of the admissible sides. A wrong branch or NaN is far outside that.
+        if !models.iter().all(|mdl| cfinite(mdl.r)) {
+            // exactly at a finite branch point (+-1 for the asin/acos family, +-i for asinh/acsch) the DD model
+            // (which divides by sqrt(1-z^2)) is not usable, but the values are classical constants
+            st.count(&format!("capped:reference-nonfinite:{}", f.name()));
+            let (x, y) = (z.real, z.imag);
+            let hp = std::f64::consts::FRAC_PI_2;
+            let known: Option<(f64, f64)> = if y == 0.0 && x.abs() == 1.0 {
+                match f { Asin | Acsc => Some((x * hp, 0.0)), Acos | Asec => Some((if x > 0.0 { 0.0 } else { 2.0 * hp }, 0.0)), Acosh | Asech => Some((0.0, if x > 0.0 { 0.0 } else { 2.0 * hp })), _ => None }
+            } else if x == 0.0 && y.abs() == 1.0 {
+                match f { Asinh => Some((0.0, y * hp)), Acsch => Some((0.0, -y * hp)), _ => None }
+            } else { None };
+            if let Some((kr, ki)) = known {
+                st.count(&format!("branch-point-constants-checked:{}", f.name()));
+                if let Some(v) = call(st, f, z) {
+                    // acosh/asech at -1: either sign of the imaginary part is admissible on the cut
+                    let d = ((v.real - kr).powi(2) + (v.imag - ki).powi(2)).sqrt().min(((v.real - kr).powi(2) + (v.imag + ki).powi(2)).sqrt());
+                    if !fin(&v) { st.violation(&format!("C14:{}:Cmplx:non-finite", f.name()), format!("{}({}) = {} at the branch point; the value is ({:e},{:e})", f.name(), showz(z), showz(&v), kr, ki)); }
+                    else if !(d <= 1e-6) { st.violation(&format!("C14:{}:Cmplx:value", f.name()), format!("{}({}) = {} at the branch point; the value is ({:e},{:e})", f.name(), showz(z), showz(&v), kr, ki)); }
+                }
+            }
+        }
+        if models.iter().all(|mdl| cfinite(mdl.r)) {
+            st.count(&format!("capped:coarse-checked:{}", f.name()));
+            if let Some(v) = call(st, f, z) {
+                if !fin(&v) {
+                    st.violation(&format!("C14:{}:Cmplx:non-finite", f.name()), format!("{}({}) = {} (reference {}, coarse check at a branch point)", f.name(), showz(z), showz(&v), showr(models[0].r)));
+                } else {
+                    let best = models.iter().map(|mdl| cdiff(&v, mdl.r) / (1.0 + m(mdl.r))).fold(f64::INFINITY, f64::min);
+                    if !(best <= 0.05) { st.violation(&format!("C14:{}:Cmplx:value-coarse", f.name()), format!("{}({}) = {} but the principal value is {} (coarse 5% check at a branch point)", f.name(), showz(z), showz(&v), showr(models[0].r))); }
+                }
+            }
+        }
+        return;
+    }
     let mz = m(zc);
     let fw = f.forward_of();
     for mdl in models.iter().filter(|_| selfcheck) {
